@@ -21,7 +21,9 @@ RULE = ("random directory graphs of up to 40 objects (mutable SDMF/MDMF director
         "with a recording walker, build_manifest, start_deep_stats, start_deep_check(verify=False/True) and "
         "start_deep_check_and_repair from a root reached by write cap or read cap — every statistics counter and the size "
         "histogram, count-objects-checked and the set of result paths of each operation are compared with the model's "
-        "event sequence and with an independent reference walk; a case = one traversal; non-trivial = at least "
+        "event sequence and with an independent reference walk; then three more traversals and four list() calls are started "
+        "together on the root (and on a second node of the same cap) under a random / fifo / lifo delivery policy, each "
+        "of which must give what it gives alone; a case = one traversal; non-trivial = at least "
         "3 objects reachable")
 TRUSTED = ["lean/Tahoe/Dir/Traverse.lean is a hand transcription of the traversal (explicit stack for the recursion over dirkids)",
            "harness/grid.py; the graph sent to the driver is read back from the real directories (list() of every directory node)"]
@@ -352,6 +354,45 @@ def one_case(ctx, w, case, lines, impls, cases):
     w["post"].append((case, static, opstats, checked))
     # ---- monitor, from the statement
     V = lambda what, sig, detail=None: ctx.violation(what, case, sig, detail)
+    # ---- several traversals started together on one node / on two nodes of the same cap from the same nodemaker, and
+    #      plain concurrent list() calls: each of them must satisfy the statement on its own, i.e. give what the
+    #      traversal alone gave
+    policy0 = rt.policy
+    rt.policy = ["random", "fifo", "lifo"][w["n"] % 3]
+    try:
+        root_b = w["c"].create_node_from_uri(root.get_write_uri(), root.get_readonly_uri())
+        started = [("manifest", root.build_manifest()), ("deep-stats", root.start_deep_stats()),
+                   ("manifest-2nd-node", root_b.build_manifest()), ("manifest-again", root.build_manifest())]
+        for opname, mon_ in started:
+            try:
+                r_ = rt.wait(mon_.when_done())
+            except Exception as e:  # noqa
+                V("a traversal started together with others failed: %s" % type(e).__name__,
+                  "concurrent-traversal-incomplete", {"op": opname, "policy": rt.policy, "error": repr(e)[:200]})
+                continue
+            got_manifest = r_["manifest"] if opname.startswith("manifest") else None
+            got_stats = r_["stats"] if opname.startswith("manifest") else r_
+            if (got_manifest is not None and got_manifest != manifest) or \
+                    {k: got_stats.get(k) for k in ("count-files", "count-directories", "count-literal-files", "count-unknown")} != \
+                    {k: stats.get(k) for k in ("count-files", "count-directories", "count-literal-files", "count-unknown")}:
+                V("a traversal started together with others does not visit what it visits alone",
+                  "concurrent-traversal-incomplete", {"op": opname, "policy": rt.policy,
+                                                      "visited": None if got_manifest is None else len(got_manifest),
+                                                      "alone": len(manifest)})
+        alone = sorted(rt.wait(root.list()))
+        ds = [root.list(), root.list(), root_b.list(), root.list()]
+        for j, d_ in enumerate(ds):
+            try:
+                got_ = rt.wait(d_)
+                if got_ is None or sorted(got_) != alone:
+                    V("one of several concurrent list() calls did not return the children", "concurrent-list-incomplete",
+                      {"call": j, "policy": rt.policy})
+            except Exception as e:  # noqa
+                V("one of several concurrent list() calls failed: %s" % type(e).__name__, "concurrent-list-incomplete",
+                  {"call": j, "policy": rt.policy})
+        ctx.count("concurrent-traversals:" + rt.policy)
+    finally:
+        rt.policy = policy0
     # reachable objects by my own search over the links that exist (identity: verifier, else the cap per link)
     reach, todo = set(), [0]
     while todo:
